@@ -571,3 +571,23 @@ def message_creations(view, model=None):
             if f is not None and _MSG_TY.search(f["ret"]) and "Response" not in f["ret"]:
                 out.append((b, None, t["dest"]["l"], n))
     return out
+
+
+def variant_excluded_edges(view, enum_suffix, place_pred, variant):
+    """Edges that are infeasible when every value satisfying place_pred(origins) of the enum `enum_suffix`
+    has variant `variant` (all switches on that value are decided consistently, including the re-tests
+    that drop elaboration inserts)."""
+    excluded = set()
+    for b, c, edges in switch_conds(view):
+        if c.kind != "discr" or not (c.enum or "").endswith(enum_suffix) or not c.__dict__.get("variants"):
+            continue
+        if not place_pred(view.origins_of_place(c.pl, at=c.at)):
+            continue
+        inv = {name: val for val, name in c.variants.items()}
+        t = view.blocks[b]["t"]
+        explicit = {val: tgt for val, tgt in t["targets"]}
+        keep = explicit.get(inv.get(variant), t["otherwise"])
+        for _, tgt in view.edges_from(b):
+            if tgt != keep:
+                excluded.add((b, tgt))
+    return excluded
